@@ -452,8 +452,22 @@ class wall_watchdog:
     def __enter__(self) -> None:
         import signal
 
+        state: dict[str, Any] = {"prev": None, "n": 0, "vt0": None}
+
         def on_alarm(signum: int, frame: Any) -> None:
-            raise WallClockHang()
+            # a slow machine is not a hang: the thread is blocked only if it sits on the same line, at the same virtual instant,
+            # on two successive alarms (2 s apart); virtual time standing still for a minute of wall time is a busy-wait
+            lp = vclock.STATE.loop
+            vt = lp.time() if lp is not None else None
+            snap = (frame.f_code.co_filename, frame.f_lineno, vt) if frame is not None else None
+            state["n"] += 1
+            if state["vt0"] is None:
+                state["vt0"] = vt
+            if snap is not None and snap == state["prev"]:
+                raise WallClockHang()
+            if state["n"] > 30 and vt == state["vt0"]:
+                raise WallClockHang()
+            state["prev"] = snap
 
         self._old = signal.signal(signal.SIGALRM, on_alarm)
         signal.setitimer(signal.ITIMER_REAL, self.seconds, 2.0)  # re-fires every 2 s should the first one be swallowed
